@@ -13,9 +13,9 @@ use refmodel::tval::{TT, TVal, directed_values};
 use serde_json::{Value, json};
 
 use crate::c01::{gen_seq, vals_from_json, vals_to_json};
-use crate::codecs::{ALL_BK, BK, Reader, WP, binary_size, read_seq, write_seq, write_seq_unchecked_guarded};
-use crate::interp::{Ops, ReadErr, from_ttype, read_val};
-use crate::oracle::diff;
+use pcodec::codecs::{ALL_BK, BK, Reader, WP, binary_size, read_seq, write_seq, write_seq_unchecked_guarded};
+use pcodec::interp::{Ops, ReadErr, from_ttype, read_val};
+use pcodec::oracle::diff;
 
 pub struct C11;
 
